@@ -2,6 +2,7 @@ import GateryModel.C01.Spec
 import GateryModel.C01.Rules2
 import GateryModel.C01.SeqLift
 import GateryModel.C01.Masking
+import GateryModel.C01.MuxChain
 /-!
 # C01 — property theorems
 
@@ -26,7 +27,9 @@ Three layers (DESIGN.md §5/C01, as built):
   tainted cone unchanged, for netlists of any size, provided every way out of the cone enters a later mux that does not select the tainted
   data input when the taint is real (equal condition / same port, negated condition / other port; a tainted *selector* masks nothing: the
   defect repaired by ef1e091 violates exactly this premise). All four variants of the pass.
-Passes without a rule theorem (mergeBinaryMuxChain, retiming, memory detection, tech mapping, export
+* `mergeBinaryMuxChain` (C01/MuxChain.lean): a chain of muxes comparing one selector with constants equals the one big mux over the table
+  the pass builds, for every chain length and width, when the selector is defined.
+Passes without a rule theorem (retiming, memory detection, tech mapping, export
 preparation), multi-clock designs and memories are covered by the trace check only.
 -/
 namespace Gatery.C01.Props
@@ -194,6 +197,21 @@ theorem mEnv : MaskEnv [[B4.t], BV4.ofNat 4 5, BV4.ofNat 4 9] mOld mS 4 0 1 2 4 
 example : (evalNet [[B4.t], BV4.ofNat 4 5, BV4.ofNat 4 9] mNew).getD 5 none = (evalNet [[B4.t], BV4.ofNat 4 5, BV4.ofNat 4 9] mOld).getD 5 none ∧
     (evalNet [[B4.t], BV4.ofNat 4 5, BV4.ofNat 4 9] mNew).getD 4 none ≠ (evalNet [[B4.t], BV4.ofNat 4 5, BV4.ofNat 4 9] mOld).getD 4 none :=
   ⟨removeIrrelevantMuxes_netlist mInstance _ mEnv 5 rfl, by decide⟩
+
+/-! ### mergeBinaryMuxChain -/
+
+/-- `mergeBinaryMuxChain`: `out₀ = base`, `outᵢ₊₁ = mux(sel == kᵢ ; outᵢ, vᵢ)` (`chainEval`) is replaced by the mux with selector `sel`
+    over the table whose entry `j` is the last `vᵢ` with `kᵢ = j`, `base` where no constant matches (`chainTable`). For every
+    non-empty chain of any length, every selector width and output width, all data values (also undefined or unconnected ones) and
+    every defined selector value both compute the same value. (_defined: for an undefined selector the comparison nodes yield `x` and
+    both forms merge their inputs; that case is covered by the trace check and by C08's monotonicity, not by this theorem.) -/
+theorem mergeBinaryMuxChain_rule_defined (w : Nat) (sel : BV4) (hs : sel.allDef = true) (base : Option BV4) (chain : List (BV4 × Option BV4))
+    (hne : chain ≠ []) (hk : ∀ kv ∈ chain, kv.1.allDef = true) :
+    chainEval w sel base chain = some (evalMux w (some sel :: (List.range (2 ^ sel.length)).map (chainTable base chain))) :=
+  muxChain_sound w sel hs base chain hne hk
+
+example : chainEval 4 (BV4.ofNat 2 2) (some (BV4.ofNat 4 1)) [(BV4.ofNat 2 0, some (BV4.ofNat 4 7)), (BV4.ofNat 2 2, some (BV4.ofNat 4 9)), (BV4.ofNat 2 2, some (BV4.ofNat 4 12))]
+    = some (BV4.ofNat 4 12) := by decide
 
 /-! ### clocked circuits: every cycle of a stimulus of any length -/
 
